@@ -17,7 +17,8 @@ PROPERTY_ID = "C03"
 LEVEL = "exploration"
 RULE = (
     "cases = one full pair-setup exchange each (fresh SRP run) against the reference accessory. HONEST: random setup"
-    " codes, controller ids (1..36 chars), accessory identities, both feed modes, with/without MFi method -> must return"
+    " codes, controller ids (1..36 chars), accessory identities, both feed modes, with/without MFi method, plus a DIRECTED"
+    " search for exchanges whose A / S / K / M2 starts with 0x00 (client secret injected) -> must return"
     " a self-consistent record and the accessory must accept M3 and M5. ADVERSARIAL (expected class REJECT by"
     " construction): M2 without salt/key or with a bit of salt/B altered in flight; M4 with EVERY single-bit flip of the"
     " 64-byte proof, proof of a wrong-code accessory, proof absent; M6 with single-bit flips of EncryptedData (every byte,"
@@ -32,7 +33,7 @@ ASSUMPTIONS = [
 SHARDS = {"quick": 16, "thorough": 16}
 TIMEOUT = {"quick": 900, "thorough": 7200}
 MIN_CASES = {"quick": 1200, "thorough": 20000}
-REQUIRED_COUNTERS = ["honest_accepted", "accessory_accepted_m3", "accessory_accepted_m5", "adversarial_rejected", "m4_proof_flips", "m6_cipher_flips"]
+REQUIRED_COUNTERS = ["honest_accepted", "accessory_accepted_m3", "accessory_accepted_m5", "adversarial_rejected", "m4_proof_flips", "m6_cipher_flips", "directed_leading_zero_K", "directed_leading_zero_S", "directed_leading_zero_A", "directed_leading_zero_M2"]
 
 
 def make_acc(rng, code=None, pairing_id=None):
@@ -49,13 +50,59 @@ def random_ios_id(rng):
     return "".join(rng.choice(alphabet) for _ in range(n))
 
 
-def check_honest(ctx, rng, idx) -> None:
+def directed_acc(rng, klass):
+    """Search (with the reference only) an exchange whose A / S / K / M2 starts with 0x00; returns (code, acc, a)."""
+    from vf.ref import srp as refsrp
+
+    grp = refsrp.HOMEKIT
+    code = f"{rng.randrange(1000):03d}-{rng.randrange(100):02d}-{rng.randrange(1000):03d}"
+    a = rng.getrandbits(128) | 1
+    if klass == "A":
+        while grp.pad(pow(grp.g, a, grp.N))[0] != 0:
+            a = rng.getrandbits(128) | 1
+    A_b = grp.pad(pow(grp.g, a, grp.N))
+    salt = rng.randbytes(16)
+    pid = b"AA:BB:CC:DD:EE:0F"
+    seed = rng.randbytes(32)
+    b = rng.getrandbits(96) | 1
+    if klass == "A":
+        return code, refps.SetupAccessory(code, pid, seed, salt, b), a
+    srv = refsrp.Server(grp, b"Pair-Setup", code.encode(), salt, b)  # verifier computed once; only b varies below
+    kv = grp.k * srv.v
+    while True:
+        b = rng.getrandbits(96) | 1
+        srv.b = b
+        srv.B = (kv + pow(grp.g, b, grp.N)) % grp.N
+        srv.set_A(A_b)
+        val = {"S": grp.pad(srv.S), "K": srv.K, "M2": srv.M2() if klass == "M2" else b"\x01"}[klass]
+        if val[0] == 0:
+            return code, refps.SetupAccessory(code, pid, seed, salt, b), a
+
+
+def check_honest(ctx, rng, idx, directed=None) -> None:
+    if directed is not None:
+        from aiohomekit.crypto import srp as repo_srp
+
+        code, acc, a = directed_acc(rng, directed)
+        orig = repo_srp.Srp.__dict__["generate_private_key"]
+        repo_srp.Srp.generate_private_key = staticmethod(lambda: a)  # same injection point the repository's own tests use
+        try:
+            _check_honest(ctx, rng, idx, code, acc, directed)
+        finally:
+            repo_srp.Srp.generate_private_key = orig
+        return
     code, acc = make_acc(rng)
+    _check_honest(ctx, rng, idx, code, acc, None)
+
+
+def _check_honest(ctx, rng, idx, code, acc, directed) -> None:
     ios_id = random_ios_id(rng)
     mode = rng.choice(["ip", "ble"])
     with_auth = rng.random() < 0.3
-    replay = {"kind": "honest", "idx": idx}
-    ctx.case("honest", idx, sample={"kind": "honest", "code": code, "ios_id": ios_id, "mode": mode, "with_auth": with_auth, "acc_id": acc.pairing_id}, kind="honest")
+    replay = {"kind": "honest", "idx": idx, "directed": directed}
+    if directed:
+        ctx.count(f"directed_leading_zero_{directed}")
+    ctx.case("honest", idx, directed, sample={"kind": "honest", "code": code, "ios_id": ios_id, "mode": mode, "with_auth": with_auth, "acc_id": acc.pairing_id}, kind="honest")
     out = drv.run_pair_setup(acc, code, ios_id, mode, with_auth)
     if out.exc is not None:
         ctx.violation(f"honest-exchange-fails-{type(out.exc).__name__}", f"{out.summary()}: {out.exc!r} (m3_ok={acc.m3_ok} m5={acc.m5_verdict})", replay)
@@ -145,6 +192,11 @@ def mutation(name, arg, rng):
             return _replace(items, 4, lambda v: bytes(len(v)))
         if kind == "truncated_proof":
             return _replace(items, 4, lambda v: v[:-1])
+        if kind == "proof_tail":
+            # the proof shortened from the FRONT: only its last `arg` bytes (0 = empty Proof item)
+            return _replace(items, 4, lambda v: v[len(v) - arg :] if arg else b"")
+        if kind == "proof_head":
+            return _replace(items, 4, lambda v: v[:arg])
         if kind == "flip_cipher":
             return _replace(items, 5, lambda v: _flip(v, arg % (len(v) * 8)))
         if kind == "drop_cipher":
@@ -214,7 +266,8 @@ def adversarial_plan(ctx):
         plan += [("M6:flip_cipher", bit, k) for bit in bits]
     structural = (
         [("M2:drop_salt", 0), ("M2:drop_key", 0), ("M4:drop_proof", 0), ("M4:drop_proof_keep_junk", 0), ("M4:wrong_code_proof", 0),
-         ("M4:zero_proof", 0), ("M4:truncated_proof", 0), ("M6:drop_cipher", 0), ("M6:other_key", 0), ("M6:verify_key", 0),
+         ("M4:zero_proof", 0), ("M4:truncated_proof", 0), ("M4:proof_tail", 0), ("M4:proof_tail", 1), ("M4:proof_tail", 32), ("M4:proof_tail", 63),
+         ("M4:proof_head", 1), ("M4:proof_head", 32), ("M6:drop_cipher", 0), ("M6:other_key", 0), ("M6:verify_key", 0),
          ("M6:plaintext_unencrypted", 0), ("M6:label_msg05", 0), ("M6:label_msg04", 0), ("M6:signed_by_other", 0), ("M6:other_key_presented_sig_by_real", 0),
          ("M6:sig_over_other_id", 0), ("M6:id_swapped_after_signing", 0), ("M6:sig_permuted", 0), ("M6:sig_controller_salt", 0),
          ("M6:sig_truncated", 0), ("M6:drop_inner", 1), ("M6:drop_inner", 3), ("M6:drop_inner", 10)]
@@ -260,13 +313,22 @@ def run(ctx) -> None:
     for i in range(ctx.pick(60, 1500)):
         if ctx.mine(i):
             check_honest(ctx, ctx.grng("C03.honest", i), i)
+    # directed search for the 1-in-256 classes inside a full pair-setup exchange (client secret injected)
+    j = 0
+    for klass in ("K", "S", "A", "M2"):
+        for k in range(ctx.pick(4, 40)):
+            j += 1
+            if ctx.mine(j):
+                check_honest(ctx, ctx.grng("C03.directed", klass, k), 10_000 + j, directed=klass)
     for j, (name, arg, k) in enumerate(adversarial_plan(ctx)):
         if ctx.mine(j):
             check_adversarial(ctx, name, arg, k, j)
 
 
 def replay(ctx, d) -> None:
-    if d["kind"] == "honest":
+    if d["kind"] == "honest" and d.get("directed"):
+        ctx.mark_inconclusive("directed cases are re-run by the whole check (their RNG key is part of the plan)")
+    elif d["kind"] == "honest":
         check_honest(ctx, ctx.grng("C03.honest", d["idx"]), d["idx"])
     else:
         check_adversarial(ctx, d["name"], d["arg"], d["k"], d["j"])
